@@ -97,6 +97,23 @@ def argSt (st : St) : AArg → Option St
 def strAt (heq : Nat → Nat → Bool) (st : St) (h : Nat) : Except Exc Str :=
   if heq st.host h then .ok st.path.str else .error .wrongHost
 
+/-- `Background(stdout=, stderr=)` handed to machine `h`: every given file must belong to a
+    clone-equivalent machine; one file for both streams is written as `1>f 2>&1` -/
+def background (heq : Nat → Nat → Bool) (out err : Option St) (h : Nat) : Except Exc Str :=
+  match out, err with
+  | some o, some e => do
+    let s ← strAt heq o h
+    let t ← strAt heq e h
+    if s == t then pure ("1>".toList ++ shQuote s ++ " 2>&1 &".toList)
+    else pure ("1>".toList ++ shQuote s ++ " 2>".toList ++ shQuote t ++ " &".toList)
+  | none, some e => do
+    let t ← strAt heq e h
+    pure ("1>/dev/null 2>".toList ++ shQuote t ++ " &".toList)
+  | some o, none => do
+    let s ← strAt heq o h
+    pure ("2>/dev/null 1>".toList ++ shQuote s ++ " &".toList)
+  | none, none => pure "1>/dev/null 2>&1 &".toList
+
 def query (heq : Nat → Nat → Bool) (st : St) : Query → Except Exc Val
   | .str => pure (.s st.path.str)
   | .parts => pure (.l st.path.parts)
@@ -125,20 +142,9 @@ def query (heq : Nat → Nat → Bool) (st : St) : Query → Except Exc Val
       let s ← strAt heq st h
       pure (.s (tok ++ shQuote s ++ (if both then " 2>&1".toList else [])))
     | none => .error .typeError
-  | .bg h out err =>
-    match out.bind (argSt st), err.bind (argSt st) with
-    | some o, some e => do
-      let s ← strAt heq o h
-      let t ← strAt heq e h
-      if s == t then pure (.s ("1>".toList ++ shQuote s ++ " 2>&1 &".toList))
-      else pure (.s ("1>".toList ++ shQuote s ++ " 2>".toList ++ shQuote t ++ " &".toList))
-    | none, some e => do
-      let t ← strAt heq e h
-      pure (.s ("1>/dev/null 2>".toList ++ shQuote t ++ " &".toList))
-    | some o, none => do
-      let s ← strAt heq o h
-      pure (.s ("2>/dev/null 1>".toList ++ shQuote s ++ " &".toList))
-    | none, none => pure (.s "1>/dev/null 2>&1 &".toList)
+  | .bg h out err => do
+    let s ← background heq (out.bind (argSt st)) (err.bind (argSt st)) h
+    pure (.s s)
   | .auth h => do let s ← strAt heq st (h.getD st.host); pure (.s s)
 
 /-- reference observation of a case -/
